@@ -187,17 +187,21 @@ def build_family(shards, profile="dev"):
     if p.returncode == 0:
         return bins, {}
     errs = {}
-    cur = None
+    gids = set()
+    for _, ids in shards:
+        gids |= set(ids)
     for line in (p.stdout or "").splitlines():
         m = re.search(r"--> (?:fam/[^/]+/)?src/([A-Za-z0-9_]+)\.rs", line)
-        if m and m.group(1) != "main":
+        if m and m.group(1) in gids:
             errs.setdefault(m.group(1), "")
     if not errs:
         raise ToolError("harness build failed outside generated grammar modules:\n" + (p.stdout or "")[-6000:])
     # attach message excerpts
     blocks = re.split(r"\n(?=error)", p.stdout or "")
     for b in blocks:
-        m = re.search(r"src/([A-Za-z0-9_]+)\.rs", b)
-        if m and m.group(1) != "main" and b.startswith("error"):
-            errs[m.group(1)] = (errs.get(m.group(1), "") + b[:600] + "\n")[:3000]
+        if not b.startswith("error"):
+            continue
+        for gid in set(re.findall(r"--> (?:fam/[^/]+/)?src/([A-Za-z0-9_]+)\.rs", b)):
+            if gid in gids:
+                errs[gid] = (errs.get(gid, "") + b[:600] + "\n")[:3000]
     return None, errs
